@@ -185,5 +185,8 @@ def check(ctx):
     policy_rules(ctx, prog)
     default_rules(ctx, prog)
     c07.check_stop(ctx, prog)
+    R.start_closure(ctx, prog, "C15.D1s")      # a failed start leaves a state that destroy (analysed above) fully releases
+    from . import c08
+    c08.wait_rules(ctx, prog)                  # the until-deadline wait of the default policy: bounded, and sees an exited child
     from .. import cxxrules
     cxxrules.c15_deleter(ctx)
